@@ -116,7 +116,9 @@ Proof.
         rewrite (IH rest false c); [| cbn in Hlen; lia | exists co; auto].
         destruct (segments false rest); cbn [option_map walk]; [rewrite El|]; reflexivity.
       * destruct (segments false rest); cbn [option_map walk]; [rewrite El|]; reflexivity.
-    + apply IH; [cbn in Hlen; lia | exact Hlive].
+    + destruct (b0 =? 0x2f).
+      * destruct rest0 as [|b1 rest1]; [reflexivity|]. apply IH; [cbn in Hlen; lia | exact Hlive].
+      * apply IH; [cbn in Hlen; lia | exact Hlive].
 Qed.
 
 Lemma findRelative_spec scope e : live t scope ->
@@ -205,5 +207,194 @@ Qed.
 Corollary Find_total scope e : live t scope -> live t 0 ->
   Find t scope e <> Panic /\ Find t scope e <> OutOfFuel.
 Proof. intros H1 H2. rewrite (Find_spec scope e H1 H2). split; discriminate. Qed.
+
+
+(** ---- what a lookup returns is a live object ---- *)
+Lemma walk_live : forall names scope r, live t scope -> walk g nm scope names = Some r -> live t r.
+Proof.
+  induction names as [|n names IH]; intros scope r Hl H; cbn [walk] in H.
+  - inversion H; subst; auto.
+  - destruct (lookup g nm scope n) as [c|] eqn:El; [|discriminate].
+    destruct (lookup_live _ _ _ El) as (_ & co & Hc & Hcl). eapply IH; [|exact H]. exists co; auto.
+Qed.
+
+Lemma resolve_rel_live scope e r : live t scope -> resolve_rel g nm scope e = Some r -> live t r.
+Proof.
+  unfold resolve_rel. intros Hl H. destruct (segments false e); [|discriminate]. eapply walk_live; eauto.
+Qed.
+
+Lemma parent_of_live scope p : live t scope -> parent_of g scope = Some p -> live t p.
+Proof.
+  intros (so & Hg & Hl) H. destruct (parent_step _ _ Hg Hl) as [Hpo Hpl]. rewrite Hpo in H.
+  destruct (N.eqb_spec (o_parent so) InvalidIndex); [discriminate|]. inversion H; subst. auto.
+Qed.
+
+Lemma carets_live : forall e scope r, live t scope -> carets g nm scope e = Some r -> live t r.
+Proof.
+  induction e as [|b rest IH]; intros scope r Hl H; cbn [carets] in H.
+  - inversion H; subst; auto.
+  - destruct (b =? 0x5e).
+    + destruct (parent_of g scope) as [p|] eqn:Ep; [|discriminate]. eapply IH; [|exact H].
+      eapply parent_of_live; eauto.
+    + eapply resolve_rel_live; eauto.
+Qed.
+
+Lemma search_up_live seg : forall fuel scope r, live t scope -> search_up g nm fuel scope seg = Some r -> live t r.
+Proof.
+  induction fuel as [|fuel IH]; intros scope r Hl H; cbn [search_up] in H; [discriminate|].
+  destruct (lookup g nm scope seg) as [c|] eqn:El.
+  - inversion H; subst. destruct (lookup_live _ _ _ El) as (_ & co & Hc & Hcl). exists co; auto.
+  - destruct (parent_of g scope) as [p|] eqn:Ep; [|discriminate]. eapply IH; [|exact H].
+    eapply parent_of_live; eauto.
+Qed.
+
+Lemma resolve_live scope e r : live t scope -> live t 0 -> resolve g nm scope e = Some r -> live t r.
+Proof.
+  intros Hl H0 H. unfold resolve in H. destruct e as [|b0 rest]; [discriminate|].
+  destruct (b0 =? 0x5c); [exact (resolve_rel_live 0 _ _ H0 H)|].
+  destruct (b0 =? 0x5e); [exact (carets_live _ scope _ Hl H)|].
+  destruct rest as [|b1 [|b2 [|b3 [|b4 rest]]]]; try discriminate.
+  - exact (search_up_live _ _ scope _ Hl H).
+  - destruct (4 <? N.of_nat (length (b0 :: b1 :: b2 :: b3 :: b4 :: rest))); [|discriminate].
+    exact (resolve_rel_live scope _ _ Hl H).
+Qed.
+
+Theorem Find_result_live scope e r : live t scope -> live t 0 ->
+  Find t scope e = Ok r -> r = InvalidIndex \/ live t r.
+Proof.
+  intros Hl H0 H. rewrite (Find_spec scope e Hl H0) in H. inversion H as [E]. clear H.
+  destruct (resolve g nm scope e) as [r'|] eqn:Er; cbn [enc_result] in *.
+  - right. exact (resolve_live scope e r' Hl H0 Er).
+  - left. reflexivity.
+Qed.
+
+(** ---- no link of a live object leads to a freed or missing slot ---- *)
+Lemma chain_links_in p : forall l prev nxt x ox, chain t p prev l nxt -> In x l -> get t x = Some ox ->
+  (o_prev ox = prev \/ In (o_prev ox) l) /\ (o_next ox = nxt \/ In (o_next ox) l).
+Proof.
+  induction l as [|c l IH]; intros prev nxt x ox Hc Hin Hg; [contradiction|].
+  destruct Hc as [(oc & Hgc & _ & _ & Hpv & Hnx) Hc].
+  destruct (N.eq_dec x c) as [->|Hne].
+  - assert (ox = oc) by congruence. subst ox. split; [left; auto|].
+    destruct l as [|c' l']; cbn [hd] in Hnx; [left; auto|right; right; left; auto].
+  - destruct Hin as [E|Hin]; [congruence|]. destruct (IH c nxt x ox Hc Hin Hg) as [[A|A] [B|B]].
+    + split; [right; left; auto|left; auto].
+    + split; [right; left; auto|right; right; auto].
+    + split; [right; right; auto|left; auto].
+    + split; right; right; auto.
+Qed.
+
+Lemma In_kids_live p c : In c (kids g p) -> live t c.
+Proof. intros H. destruct (R_In_kids t g HR _ _ H) as (_ & co & Hc & Hl & _). exists co; auto. Qed.
+
+Theorem links_live i o : get t i = Some o -> o_opcode o <> opFreed ->
+  forall l, In l [o_parent o; o_prev o; o_next o; o_first o; o_last o] -> l = InvalidIndex \/ live t l.
+Proof.
+  intros Hg Hl.
+  destruct (R_kids _ _ HR _ _ Hg Hl) as (Hf & Hla & _ & _).
+  assert (Hfirst : o_first o = InvalidIndex \/ live t (o_first o)).
+  { rewrite Hf. destruct (kids g i) as [|c l] eqn:E; [left; reflexivity|right].
+    apply (In_kids_live i). rewrite E. left. reflexivity. }
+  assert (Hlast : o_last o = InvalidIndex \/ live t (o_last o)).
+  { rewrite Hla. destruct (kids g i) as [|c l] eqn:E; [left; reflexivity|right].
+    apply (In_kids_live i). rewrite E. apply last_In. }
+  pose proof (R_up _ _ HR _ _ Hg Hl) as Hup.
+  assert (Hrest : (o_parent o = InvalidIndex \/ live t (o_parent o)) /\
+                  (o_prev o = InvalidIndex \/ live t (o_prev o)) /\
+                  (o_next o = InvalidIndex \/ live t (o_next o))).
+  { destruct (N.eqb_spec (o_parent o) InvalidIndex) as [E|E].
+    - destruct Hup as [A B]. auto.
+    - destruct (R_parent_live t g HR _ _ Hg Hl E) as (Hin & po & Hpo & Hpl).
+      split; [right; exists po; auto|].
+      destruct (R_kids _ _ HR _ _ Hpo Hpl) as (_ & _ & Hc & _).
+      destruct (chain_links_in _ _ _ _ _ _ Hc Hin Hg) as [[A|A] [B|B]]; split; auto;
+        right; eapply In_kids_live; eauto. }
+  destruct Hrest as (A & B & C).
+  intros l [<-|[<-|[<-|[<-|[<-|[]]]]]]; auto.
+Qed.
+
+Lemma ObjectAt_freed i o : get t i = Some o -> o_opcode o = opFreed -> ObjectAt t i = None.
+Proof.
+  intros Hg Hf. unfold ObjectAt. destruct (pool_len t <=? i); [reflexivity|].
+  unfold get in Hg. rewrite Hg. apply N.eqb_eq in Hf. rewrite Hf. reflexivity.
+Qed.
+
+(** ---- NumArgs / ArgAt read the child list ---- *)
+Lemma numArgs_go_chain p : forall l prev fuel cnt,
+  chain t p prev l InvalidIndex -> (length l < fuel)%nat -> cnt + N.of_nat (length l) < two32 ->
+  numArgs_go fuel t (hd InvalidIndex l) cnt = Ok (cnt + N.of_nat (length l)).
+Proof.
+  induction l as [|c l IH]; intros prev fuel cnt Hc Hf Hb.
+  - destruct fuel; [cbn in Hf; lia|]. cbn [numArgs_go hd length]. rewrite N.eqb_refl. f_equal. lia.
+  - destruct fuel; [cbn in Hf; lia|]. cbn [hd numArgs_go].
+    destruct Hc as [(oc & Hg & Hl & _ & _ & Hn) Hc].
+    assert (Hcv : c <> InvalidIndex) by (eapply (R_pos_not_Inv t g HR); eauto).
+    apply N.eqb_neq in Hcv. rewrite Hcv.
+    erewrite ObjectAt_deref_live; [| apply (R_bound _ _ HR) | exact Hg | exact Hl]. cbn [bind].
+    rewrite (rd_ok _ _ _ _ Hg). cbn [bind]. rewrite Hn.
+    cbn [length] in Hb. rewrite w32_small by lia.
+    rewrite (IH c); auto; cbn [length] in *; try lia. f_equal. lia.
+Qed.
+
+Theorem NumArgs_spec p : live t p -> NumArgs t (Some p) = Ok (N.of_nat (length (kids g p))).
+Proof.
+  intros (po & Hg & Hl). unfold NumArgs. rewrite (rd_ok _ _ _ _ Hg). cbn [bind].
+  destruct (R_kids _ _ HR _ _ Hg Hl) as (Hf & _ & Hc & _). rewrite Hf.
+  pose proof (kids_length p) as Hk. pose proof (R_bound _ _ HR) as Hb. pose proof Inv_lt_two32.
+  erewrite numArgs_go_chain; eauto.
+  - unfold chain_fuel. lia.
+  - lia.
+Qed.
+
+Lemma argAt_go_chain p index : forall l prev fuel a,
+  chain t p prev l InvalidIndex -> (length l < fuel)%nat -> a + N.of_nat (length l) < two32 -> a <= index ->
+  argAt_go fuel t a (hd InvalidIndex l) index = Ok (nth_error l (N.to_nat (index - a))).
+Proof.
+  induction l as [|c l IH]; intros prev fuel a Hc Hf Hb Ha.
+  - destruct fuel; [cbn in Hf; lia|]. cbn [argAt_go hd]. rewrite N.eqb_refl.
+    destruct (N.to_nat (index - a)); reflexivity.
+  - destruct fuel; [cbn in Hf; lia|]. cbn [hd argAt_go].
+    destruct Hc as [(oc & Hg & Hl & _ & _ & Hn) Hc].
+    assert (Hcv : c <> InvalidIndex) by (eapply (R_pos_not_Inv t g HR); eauto).
+    apply N.eqb_neq in Hcv. rewrite Hcv.
+    destruct (N.eqb_spec a index) as [E|E].
+    + subst a. rewrite N.sub_diag. cbn [N.to_nat nth_error].
+      erewrite ObjectAt_live; [reflexivity | apply (R_bound _ _ HR) | exact Hg | exact Hl].
+    + erewrite ObjectAt_deref_live; [| apply (R_bound _ _ HR) | exact Hg | exact Hl]. cbn [bind].
+      rewrite (rd_ok _ _ _ _ Hg). cbn [bind]. rewrite Hn.
+      cbn [length] in Hb. rewrite w32_small by lia.
+      rewrite (IH c); auto; cbn [length] in *; try lia.
+      replace (N.to_nat (index - a)) with (S (N.to_nat (index - (a + 1)))) by lia. reflexivity.
+Qed.
+
+Theorem ArgAt_spec p index : live t p ->
+  ArgAt t (Some p) index = Ok (nth_error (kids g p) (N.to_nat index)).
+Proof.
+  intros (po & Hg & Hl). unfold ArgAt. rewrite (rd_ok _ _ _ _ Hg). cbn [bind].
+  destruct (R_kids _ _ HR _ _ Hg Hl) as (Hf & _ & Hc & _). rewrite Hf.
+  pose proof (kids_length p) as Hk. pose proof (R_bound _ _ HR) as Hb. pose proof Inv_lt_two32.
+  erewrite argAt_go_chain; eauto.
+  - rewrite N.sub_0_r. reflexivity.
+  - unfold chain_fuel. lia.
+  - lia.
+  - lia.
+Qed.
+
+Theorem freed_unreachable :
+  (forall i o, get t i = Some o -> o_opcode o <> opFreed ->
+     forall l, In l [o_parent o; o_prev o; o_next o; o_first o; o_last o] -> l = InvalidIndex \/ live t l) /\
+  (forall i o, get t i = Some o -> o_opcode o = opFreed -> ObjectAt t i = None /\ kids g i = [] /\
+     forall p, ~ In i (kids g p)).
+Proof.
+  split.
+  - exact links_live.
+  - intros i o Hg Hf. split; [exact (ObjectAt_freed i o Hg Hf)|]. split; [exact (proj1 (R_freed t g HR i o Hg Hf))|].
+    intros p Hin. destruct (R_In_kids t g HR p i Hin) as (_ & co & Hc & Hl & _). congruence.
+Qed.
+
+Theorem numargs_argat p index : live t p ->
+  NumArgs t (Some p) = Ok (N.of_nat (length (kids g p))) /\
+  ArgAt t (Some p) index = Ok (nth_error (kids g p) (N.to_nat index)).
+Proof. intros Hl. split; [exact (NumArgs_spec p Hl) | exact (ArgAt_spec p index Hl)]. Qed.
 
 End FindProofs.
